@@ -672,6 +672,18 @@ func runC19(args []string) int {
 	writeFile(o.Out, "cases_C19.v", "From Coq Require Import ZArith List Bool.\nFrom GnarkV Require Import Std.SumcheckCases.\nImport ListNotations.\n"+
 		fmt.Sprintf("Definition ldecases : list (list Z * Z * Z) := %s.\nDefinition mism_lde := Eval vm_compute in lde_mismatches %s 0 ldecases.\nPrint mism_lde.\n", coqlistNL(ldeCases), zlit(bnQ)))
 	rep.CoqCases = len(ldeCases)
+	// ---- the executable Gallina GKR verifier against the observed in-circuit verifier
+	gk := c19ModelTie(o, rng, rep, topos)
+	const shard = 6
+	for s := 0; s*shard < len(gk); s++ {
+		hi := (s + 1) * shard
+		if hi > len(gk) {
+			hi = len(gk)
+		}
+		writeFile(o.Out, fmt.Sprintf("cases_C19_gkr_%d.v", s), "From Coq Require Import ZArith List Bool.\nFrom GnarkV Require Import Std.Gkr Std.GkrCases.\nImport ListNotations.\nLocal Open Scope Z_scope.\n"+
+			fmt.Sprintf("Definition gkrcases : list gcase := %s.\nDefinition mism_gkr_%d := Eval vm_compute in gkr_mismatches %s 0 gkrcases.\nPrint mism_gkr_%d.\n", coqlistNL(gk[s*shard:hi]), s, zlit(bnQ), s))
+	}
+	rep.CoqCases += len(gk)
 	rep.Write(o.Out)
 	return 0
 }
